@@ -227,6 +227,9 @@ class SocketConnection(BaseConnection):
                 if events:
                     data = self.sock.recv(self.bufsize)
                     if data is not None:
+                        if len(data) == 0 and getattr(self.sock, 'type', None) != socket.SOCK_DGRAM:
+                            # An empty read on a connection-oriented socket means that the peer has disconnected. It is not a frame.
+                            break
                         self.rxqueue.put(data)
             except Exception:
                 self.exit_requested = True
